@@ -73,17 +73,22 @@ Section WithHasher.
     | p :: ps =>
         let inner := pu_inner p in
         let skip := length (vp_path inner) in
-        let up_layers :=
+        let up_layers : res vu_err nat :=
           match ps with
-          | [] => Some skip
+          | [] => Ok skip
           | q :: _ =>
               let n := common (vp_path (pu_inner q)) (vp_path inner) in
-              (* skip - (n + 1): usize underflow panics (overflow checks are on) *)
-              if Nat.ltb skip (n + 1) then None else Some (skip - (n + 1))
+              (* two terminals of one trie are never prefixes of each other *)
+              if Nat.eqb n skip then Err PathsOutOfOrder
+              (* skip - (n + 1): usize underflow panics (overflow checks are on); unreachable
+                 now, since n <= skip (a common prefix) and n <> skip
+                 (VerifyUpdate_proofs.vu_no_underflow) *)
+              else if Nat.ltb skip (n + 1) then Panic else Ok (skip - (n + 1))
           end in
         match up_layers with
-        | None => Panic
-        | Some up =>
+        | Panic => Panic
+        | Err e => Err e
+        | Ok up =>
             let ops := leaf_ops_spliced (vp_terminal inner) (pu_ops p) in
             match build_trie H KEYLEN skip ops with
             | Panic => Panic
